@@ -61,7 +61,7 @@ def run_live(ctx, plan):
                                    'Seed': seed, 'LimitMs': limit_ms, 'ByzActive': bool(getattr(cfg, 'byz_active', False)),
                                    'Scale': getattr(cfg, 'scale', 0), 'Stack': stack,
                                    'Laggard': getattr(cfg, 'laggard', 0), 'LagUntil': getattr(cfg, 'lag_until', 0),
-                                   'StopNode': getattr(cfg, 'stop_node', 0)}, f)
+                                   'StopNode': getattr(cfg, 'stop_node', 0), 'RestartNode': getattr(cfg, 'restart_node', 0)}, f)
                     return subprocess.run([os.path.join(engine.HARNESS, engine.BIN, 'csim'), 'live', cj, out],
                                           stdout=subprocess.PIPE, stderr=subprocess.PIPE, text=True, errors='replace',
                                           timeout=limit_ms / 1000 + 240, env=engine.GOENV)
